@@ -9,6 +9,8 @@ CONSTANTS
   RuleTypes = {4}
   LigLens = {1, 2}
   Kinds = {"cff"}
+  CmapFormats = {"4"}
+  LigFirst = -1
   TextSel = "none"
   Flags = FALSE
   Quiet = TRUE
